@@ -206,6 +206,14 @@ class CVec(CSym):
             return LV([a.l[2], a.l[3], b.l[2], b.l[3]])
         return None
 
+    def ev(self, e, env, depth, want_ptr=False):
+        if e[0] == "sizeof":
+            sz = {"__m128i": 16, "__m256i": 32, "__m512i": 64, "uint32_t": 4, "uint8_t": 1, "uint64_t": 8}.get(e[1])
+            if sz is None:
+                raise SymFail("sizeof(%s)" % e[1])
+            return self.T.const(sz)
+        return CSym.ev(self, e, env, depth, want_ptr)
+
     def call(self, name, args, depth):
         if name in self.overrides:
             return self.overrides[name](self, args)
